@@ -251,9 +251,13 @@ _ELIM_TEXT = ('infeasible_elimination, FOR EVERY ANSWER of the LP solver, the to
               'the unwraps of node_value / parent / polyhedra.last / node_value_mut, the non-empty-witness assertion of phase_inh, the `label should be 0 or 1` panic of PolyhedraGen::next, the dimension panic of intersection_n; '
               'the loop TERMINATES (every iteration visits a node not visited before); the result is well-formed with the same root; no node is added, every surviving node keeps its affine function (only cached states change) and cached witness lists stay non-empty. '
               'Invariant (ghost set of visited nodes): stack entries exist, are unvisited and pairwise distinct, hang below visited nodes; visited nodes are closed under parent; nothing visited or waiting hangs below a node cached infeasible; of two siblings on the stack the upper one counts a remaining sibling '
-              '(so n_remaining == 0 means no sibling is waiting when the parent is forwarded). ')
+              '(so n_remaining == 0 means no sibling is waiting when the parent is forwarded). '
+              'MEANING (conditional function preservation, same unit): there is a set of blamed nodes, each either cached infeasible at entry or given an Infeasible answer by the LP layer for the polytope recorded for it at its visit, '
+              'such that every input whose evaluation in the ORIGINAL tree passes no blamed node keeps its value and its undefinedness: tree_fn(after, x) == tree_fn(before, x) '
+              '(per step: forward_if_redundant changes the function at most for inputs that reach the decision and leave it through a child cached infeasible - lemma_fwd_sem; a deferred removal at most for inputs taking the removed branch; state writes not at all). '
+              'What stays outside: that the recorded polytope is the path region of the node while the tree is being mutated (proved for an unchanged tree in unit pwl_regions), and that an Infeasible LP answer is right (C10). ')
 _ELIM_ASSUME = [
-    'unit pwl_elim: K == 2 (PolyhedraGen::next panics on labels >= 2), arena of at most i32::MAX nodes, input tree well-formed with aff shapes of the tree dimension and non-empty cached witness lists (vals_ok); '
+    'unit pwl_elim: K == 2 (PolyhedraGen::next panics on labels >= 2), arena of at most i32::MAX nodes, input tree well-formed with aff shapes of the tree dimension, non-empty cached witness lists (vals_ok) and one-row decisions (dec_one_row); '
     'rule N3: `while let Some((data, polyhedra)) = iter.next(&self.tree)` is read as `while let Some(data) = iter.next(&self.tree)` + `let polyhedra = iter.current_polytope()` (PolyhedraGen::next is verified with the pair result replaced by the node data; current_polytope returns the same vector); '
     'the PerformanceCounter increments are dropped (rule D7) except that `self.tree.num_nodes(node_idx) - 1` is kept as a statement (num_nodes: iterator pipeline, trusted "requires the node, returns >= 1"); `for (label, node) in to_remove` is the index loop; node_value(i) is read as tree_node(i).value (rule N2); '
     'phase_one (repair heuristic around mirror_points, numeric code) is an ORACLE returning Indeterminate or a non-empty witness list (mirror_points returns Some only with at least one column), its shape assertion (cached witnesses have the polytope dimension) is ASSUMED; '
@@ -342,7 +346,7 @@ PROPS['C11']['technique'] = 'Verus contracts on the extracted decision logic aro
 PROPS['C11']['level_text'] = 'Mixed. ' + _FEAS_TEXT + 'This holds for every answer pattern of the oracles, i.e. for any number and kind of LP faults. Also PROVED at tree level (unit pwl_elim, binary trees): ' + _ELIM_TEXT + 'BOUNDED (bc faults, fault enumeration with the cfg hook): the remaining tree-level consequences through infeasible_elimination / pruned composition - same function, sound caches, only less pruning - for every single fault position and kind. ' + PROPS['C11']['level_text']
 PROPS['C05']['technique'] = 'Verus contracts on the extracted witness-producing functions (phase_two, phase_inh: every cached witness passed `contains` for the polytope it is cached for) + bounded replay (bc prune, bc faults[cache]) of the cache contract on whole trees'
 PROPS['C05']['level_text'] = 'Mixed. ' + _FEAS_TEXT + 'BOUNDED (bc prune / faults): that the polytope handed to these functions is the path polytope of the node (PolyhedraGen part: see C09), infeasible marks only on regions without interior, mirror_points results lie in the polytope. ' + PROPS['C05']['level_text']
-PROPS['C03']['technique'] = 'Verus contracts on the extracted pruning oracle (is_edge_feasible) and LP phase (phase_two): pruning decisions come only from Infeasible verdicts + bounded replay (bc prune) of function preservation through infeasible_elimination and compose::<true,_>'
+PROPS['C03']['technique'] = 'Verus contracts on the extracted pruning oracle (is_edge_feasible), LP phase (phase_two), forward_if_redundant and infeasible_elimination: pruning decisions come only from Infeasible verdicts, and the function changes at most for inputs whose original evaluation passes a node with such a verdict (conditional function preservation, LP soundness assumed) + bounded replay (bc prune) of unconditional function preservation through infeasible_elimination and compose::<true,_>'
 PROPS['C03']['level_text'] = 'Mixed. ' + _FEAS_TEXT + 'Structure PROVED (unit pwl_elim): ' + _ELIM_TEXT + 'NOT proved: that removing what these verdicts mark preserves the function (needs the soundness of the LP answer and the simulation argument for the traversal that mutates the tree: bounded). ' + PROPS['C03']['level_text']
 
 # forward_if_redundant (the splice step of infeasible_elimination) is under contract since unit pwl_forward
@@ -359,7 +363,7 @@ PROPS['C06'].update({
     'level_text': 'Mixed. ' + _FWD_TEXT + 'BOUNDED only (bc prune / distill, exact emptiness oracle): that after the whole infeasible_elimination no node below the root has an empty region, no decision below the root has a single branch, and a second run changes nothing (these depend on the LP answers and on the traversal that mutates the tree). ' + PROPS['C06']['level_text'],
     'assumptions': ASSUME_COMMON + ASSUME_SLAB + ASSUME_ND + ASSUME_PWL + PROPS['C06']['assumptions'] + _FWD_ASSUME,
 })
-PROPS['C03']['units'] = ['pwl_feasible', 'pwl_forward']
+PROPS['C03']['units'] = ['pwl_feasible', 'pwl_forward', 'pwl_elim']
 PROPS['C03']['assumptions'] = PROPS['C03']['assumptions'] + _FWD_ASSUME
 PROPS['C03']['level_text'] = PROPS['C03']['level_text'].replace('NOT proved:', _FWD_TEXT.replace('PROVED (Verus, unit pwl_forward', 'Also PROVED (unit pwl_forward') + 'NOT proved:')
 
